@@ -86,7 +86,25 @@ let sizes_of_spec (spec : string) (n : int) : coq_N list =
   else if spec.[0] = 'r' then begin
     let k = max 1 (int_of_string (String.sub spec 1 (String.length spec - 1))) in
     List.init (n / k + 1) (fun _ -> n_of_int k)
-  end else List.map (fun x -> n_of_int (int_of_string x)) (String.split_on_char ',' spec)
+  end else
+    (* "z" = an empty read (0, nil) of the Go-side transport: the same bytes arrive, the model's chunk list skips it *)
+    List.map (fun x -> n_of_int (max 1 (int_of_string x))) (List.filter (fun x -> x <> "z") (String.split_on_char ',' spec))
+
+(* a spec with "z" entries: the chunk list itself, with an EMPTY chunk for every empty read the Go-side
+   transport answers while data remains (the models' read1 returns ([], None) on an empty chunk, like (0, nil)) *)
+let chunks_of_spec (spec : string) (data : 'a list) : 'a list list option =
+  if spec = "-" || spec.[0] = 'r' || not (List.mem "z" (String.split_on_char ',' spec)) then None
+  else begin
+    let rec take k l = if k <= 0 then [] else match l with [] -> [] | x :: r -> x :: take (k-1) r in
+    let rec drop k l = if k <= 0 then l else match l with [] -> [] | _ :: r -> drop (k-1) r in
+    let rec go toks data = match data with
+      | [] -> []
+      | _ -> (match toks with
+          | [] -> [data]
+          | "z" :: r -> [] :: go r data
+          | t :: r -> let k = max 1 (int_of_string t) in take k data :: go r (drop k data)) in
+    Some (go (String.split_on_char ',' spec) data)
+  end
 
 (* ---- in-kernel replay (thorough tier): a sample of cases is written out as Coq boolean
    expressions over the same model/monitor functions; the driver evaluates them with
